@@ -293,6 +293,26 @@ example : let s := gcdTail 0 false ex6 0 [1] 1 63; s.ok = true ∧ view (s.h 0) 
 example : (gcdTail 1 false ex6 0 [3] 1 63).ok = false := by decide
 example : (gcdTail 0 true ex6 0 [1] 1 63).ok = false := by decide
 
+/-- mpz_gcd (mpz/gcd.c), EVERY arm, every heap, every allocation of g, every alias pattern (g may be u and / or v, u may be v):
+    `ok` stays true (no load or store outside a block or through a stale pointer, no TMP block overrun), g ends well formed,
+    every other variable is unchanged, and the value is gcd (|u|, |v|).  The general arm (gcd.c:79-155) composes `stripLow_spec`
+    (the TMP copies hold the odd parts u', v' with u = u' << (64 * u_zero_limbs + u_zero_bits), and fit their blocks), the callee
+    mpn_gcd by its contract as the model states it (value gcd (u', v') — C07 `mpn_gcd_correct` —, stored normalised at vp: that
+    these limbs fit vp's block is PROVED here from gcd (u', v') ≤ v', not assumed) and `gcdTail_refines` (the re-shift:
+    `MPZ_REALLOC (g, gsize)` covers the zero limbs, the shifted limbs and the conditional `cy_limb`; the top limb stored is
+    non-zero; the value is G << (64 * g_zero_limbs + g_zero_bits)), with
+    gcd (u' << a, v' << b) = gcd (u', v') << min (a, b) for odd u', v'. -/
+theorem mpz_gcd_alloc_safe (s : St) (g u v : Nat) (hs : s.ok = true)
+    (hg : OWF (s.h g)) (hu : OWF (s.h u)) (hv : OWF (s.h v)) :
+    ∃ m, Safe s (mpz_gcd s g u v) g m ∧
+      Mpz.toInt m = (Nat.gcd (Mpz.toInt (view (s.h u))).natAbs (Mpz.toInt (view (s.h v))).natAbs : Nat) := by
+  by_cases hsmall : (s.h u).size.natAbs ≤ 1 ∨ (s.h v).size.natAbs ≤ 1
+  · exact mpz_gcd_small_alloc_safe_partial s g u v hs hg hu hv hsmall
+  · obtain ⟨R, r1, r2, r3⟩ := gcdGeneral_refines s g u v hs hg hu hv (by omega) (by omega)
+    refine ⟨_, r1.safe r2, ?_⟩
+    rw [toInt_natAbs, toInt_natAbs, ← r3]
+    simp [Mpz.toInt]
+
 -- gcd (B^2 - 1, 6) = 3 into variable 0 and over v; gcd (0, v) copies; in place nothing is reallocated
 example : let s := mpz_gcd ex6 0 1 2; s.ok = true ∧ view (s.h 0) = ⟨1, 1, [3]⟩ := by decide
 example : let s := mpz_gcd ex6 2 1 2; s.ok = true ∧ view (s.h 2) = ⟨1, 1, [3]⟩ := by decide
